@@ -535,6 +535,23 @@ func (c14) Run(ctx *core.RunCtx) {
 	if params.RingType() == ring.ConjugateInvariant {
 		ctx.Count("probe.conjugate-invariant-ring", 1)
 	}
+	// the error distribution of the parameters is not always the default one (every protocol object, also one
+	// obtained by ShallowCopy, samples with it; the noise bounds below are derived from it)
+	if xi := ch.Draw("error-distribution", 4); xi > 0 {
+		xe := []ring.DiscreteGaussian{{Sigma: 0.5, Bound: 2}, {Sigma: 1, Bound: 4}, {Sigma: 6.4, Bound: 38.4}}[xi-1]
+		base := params
+		c := ctx.Cached(fmt.Sprintf("%s/xe%d", spec.Key(), xi), func(*core.Xoshiro) any {
+			pp, err := rlwe.NewParametersFromLiteral(rlwe.ParametersLiteral{LogN: base.LogN(), Q: base.Q(), P: base.P(), Xe: xe, RingType: base.RingType(), NTTFlag: base.NTTFlag()})
+			if err != nil {
+				return err
+			}
+			return &pp
+		})
+		if pp, ok := c.(*rlwe.Parameters); ok {
+			params = *pp
+			ctx.Count("probe.non-default-error-distribution", 1)
+		}
+	}
 	N := 1 + ch.Draw("N", 8)
 	r := &c14Run{ctx: ctx, params: params, N: N}
 	r.serial = ch.Draw("serialize-mode", 3)
